@@ -19,6 +19,8 @@ C16_O1_overflow|Iora.C16.O1_overflow|proved|pool overflow (queue at capacity on 
 C16_O1_conn|Iora.C16.O1_all_schedules|proved|for every schedule, worker count and queue capacity: commands issued so far + commands still owed is a permutation of what the arrived requests were entitled to (nothing lost, nothing duplicated)
 C16_O1_quiescent|Iora.C16.O1_quiescent|proved|for every schedule: once all workers are idle the Send commands of a session are a permutation of the responses of its requests — one per request
 C16_O2|Iora.C16.O2_whole_responses|proved|for every schedule every Send command in the engine queue carries exactly one whole response of one arrived request of that session (responses never interleave; contiguity of one Send is C01)
+C16_O1_ticket|Iora.C16.O1_one_send_per_ticket|proved|every ticket (what one arrived request is entitled to, for any server, per-call environment and request bytes) contains at most one Send; the overflow ticket exactly one
+C16_O2_stream|Iora.C16.O2_stream_is_prefix_of_whole_responses|proved|for every kernel / event-loop behaviour the bytes a peer reads are a prefix of the concatenation, in engine-queue order, of the whole Send payloads before the first Close
 C16_O3_refuted|Iora.C16.O3_refuted|refuted|F28: with 2 workers the Send order is the completion order (witness: arrive r1, arrive r2, pick, pick, finish task 2, finish task 1)
 C16_O3_partial|Iora.C16.O3_partial_one_in_flight|partial|for every schedule in which a request of a session arrives only when no earlier one of that session is unfinished: each session's commands are exactly its requests' commands in arrival order, at every moment
 C16_O3_partial_w1|Iora.C16.O3_partial_single_worker|partial|one worker and a queue that is never full: the whole engine queue is the requests' commands in arrival order, at every moment
@@ -36,6 +38,7 @@ C16_O4p_partial|Iora.C16.O4p_partial_fits_buffer|partial|if the kernel takes eve
 C16_O4p_prefix|Iora.C16.O4p_prefix_always|proved|for every event sequence the delivered bytes are a prefix of what was sent before the Close (never garbage, never reordered)
 C16_O5|Iora.C16.O5_framer_recovers|proved|the reference HTTP/1.1 framer applied to the concatenation of any list of wire-safe responses returns exactly their (status, field lines, body) list and nothing is left over
 C16_O5_process|Iora.C16.O5_process_wire_safe|proved|what processHttpRequest sends for a parsed request is wire-safe whenever the handler left token field names, no LF in values, no Transfer-Encoding, a status in 200..999 and an API-consistent body (or a 204/304, whose body and Content-Length are dropped under every method after the FC16a repair)
+C16_O5_e2e|Iora.C16.O5_end_to_end|proved|capstone: responses wire-safe + fitting the socket buffer + issued in order (optionally followed by Close) => for every kernel / event-loop behaviour the reference framer splits what the client reads into exactly those responses
 C16_gen_methods|Iora.C16.gen_methods|proved|Gen conformance: HttpMethod enumerators and parseMethod table agree with the model's Method type
 C16_gen_shape|Iora.C16.gen_connection_tokenised|proved|Gen conformance: the Connection decision found in the source is the tokenised one (F33 repaired) and the 204/304 reconciliation applies to every method (FC16a repaired)
 C16_gen_session|Iora.C16.gen_session_fields_never_written|proved|Gen conformance: SessionInfo::httpVersion / connectionKeepAlive are never assigned, so the session half of the decision is constant
@@ -52,7 +55,9 @@ for _l in OBLIGATION_TABLE.strip().splitlines():
 NOT_PROVED = [
     "O3 at full strength is false (F28, refuted); proved under `OneInFlight` (non-pipelining client) and under `w = 1 ∧ queue never full`",
     "O4′ at full strength is false (F31, refuted); proved under `FitsBuffer`",
-    "the pool model's atomicity (one engine command per `_mutex` section, FIFO pop) is tied by the end-to-end acceptor, not by a DetSched lockstep",
+    "the pool model (FIFO pop, w workers, one engine command per `_mutex` section) is tied by lockstep on gate-controlled schedules (handlers park at gates, "
+    "the op script chooses the completion order) and by the end-to-end acceptor; preemption INSIDE processHttpRequest between its two `_mutex` sections (Send, then Close) "
+    "is in the model (`emit` per command) but is not forced in the harness",
     "O4_close speaks about the request's Connection value as parsed: repeated Connection field-lines are last-wins (addOrCombineHeader allow-list), "
     "so `Connection: close` followed by a second Connection line without `close` does not close (observation, not repaired: the allow-list is tested behaviour)",
     "O5 assumes the handler put no CR/LF in field values, field names are tokens, status is 3 digits, and no body on 1xx/204/304 unless the request is HEAD "
@@ -511,6 +516,87 @@ def gen_dispatch_cases(ctx, rng, n):
         cases.append({"cat": "dispatch", "ops": ops, "first_req": 3, "reqs": None})
     cases.append({"cat": "overflow", "ops": ["reset", "overflow %s" % hexs(b"GET / HTTP/1.1\r\nHost: x\r\n\r\n")], "first_req": 1, "reqs": None})
     return cases
+
+
+def gen_pool_cases(ctx, rng, n):
+    """Deterministic pool schedules through the REAL handleIncomingData -> ThreadPool -> processHttpRequest: handlers park at gates
+    and the op script decides the order in which they finish (lockstep with Model/HttpRespondConn.lean `stepPool`)."""
+    cases = []
+    for _ in range(n):
+        ops = ["reset", "route GET %s gate,echo" % hexs(b"/g"), "route POST %s gate,echo" % hexs(b"/p"), "route GET %s %s" % (hexs(b"/c"), "gate," + sc_content(b"c"))]
+        first = len(ops)
+        k = 0
+        parked = []
+        arrivals = []          # (sid, k, gated)
+        in_order_release = rng.chance(1, 4)
+        closed = set()
+        for _ in range(rng.range(3, 22)):
+            if parked and (rng.chance(2, 5) or len(parked) >= 12):
+                g = parked.pop(0 if in_order_release else rng.below(len(parked)))
+                ops.append("prel %d" % g)
+                continue
+            k += 1
+            sid = rng.choice([1, 1, 1, 2, 3])
+            kind = rng.below(10)
+            hdr = [(b"X-Gate", b"%d" % k)]
+            if kind < 6:
+                d = build_request(rng, b"GET", b"/g?id=%04d&pad=%s" % (k, b"x" * k), extra=hdr, conn=rng.choice([None, None, None, b"close"]))
+                gated = True
+            elif kind < 7:
+                d = build_request(rng, b"POST", b"/p?id=%04d&pad=%s" % (k, b"x" * k), extra=hdr, body=rng.bytes(rng.range(1, 10)))
+                gated = True
+            elif kind < 8:
+                d = build_request(rng, b"HEAD", b"/g?id=%04d" % k, extra=hdr)
+                gated = True
+            elif kind < 9:
+                d = build_request(rng, b"GET", b"/missing", extra=hdr)
+                gated = False
+            else:
+                d = build_request(rng, rng.choice([b"BREW", b"GET"]), b"/g", host=False, extra=hdr)
+                gated = False
+            if gated and rng.chance(1, 10):
+                ops.append("prel %d" % k)          # opened before the request even arrives
+                gated_now = False
+            else:
+                gated_now = gated
+            ops.append("parr %d %s" % (sid, hexs(d)))
+            arrivals.append((sid, k, kind < 7))
+            if gated_now:
+                parked.append(k)
+        ops.append("pdrain")
+        cases.append({"cat": "pool", "ops": ops, "first_req": first, "reqs": None, "arrivals": arrivals})
+    return cases
+
+
+def monitor_pool(c, impl):
+    """implementation only: one Send per arrived request and session; echo responses (status 200, length grows with the request
+    number) in arrival order per session unless the F28 hypothesis fails"""
+    bad = []
+    hyp = []
+    sends = {}
+    for op, l in zip(c["ops"][c["first_req"]:], impl[c["first_req"]:]):
+        if l.startswith("pool-not") or l.startswith("throw") or l.startswith("crash:") or " | " not in l:
+            bad.append("O1: the pool did not settle / the harness died: %s -> %s" % (op[:60], l[:60]))
+            return bad, hyp
+        ev = l.split(" | ")[0]
+        if ev == "-":
+            continue
+        for e in ev.split(";"):
+            p = e.split(":")
+            if len(p) >= 5 and p[1] == "S":
+                sends.setdefault(int(p[0]), []).append((p[2], int(p[3])))
+    want = {}
+    for sid, k, echo in c["arrivals"]:
+        want[sid] = want.get(sid, 0) + 1
+    for sid, n in want.items():
+        got = len(sends.get(sid, []))
+        if got != n:
+            bad.append("O1: session %d: %d requests arrived, %d Send commands were issued" % (sid, n, got))
+    for sid, lst in sends.items():
+        lens = [ln for st, ln in lst if st == "200"]
+        if lens != sorted(lens):
+            hyp.append("F28")
+    return bad, hyp
 
 
 # ================================================================== monitors for lockstep-style cases (implementation output only)
@@ -990,6 +1076,7 @@ def run(ctx: Ctx):
         cases += gen_oracle_cases(ctx, rng.fork("oracle"), 500 * scale)
         cases += gen_lockstep_cases(ctx, rng.fork("lock"), 1400 * scale)
         cases += gen_dispatch_cases(ctx, rng.fork("disp"), 60 * scale)
+        cases += gen_pool_cases(ctx, rng.fork("pool"), 150 * scale)
         res = ctx.lockstep(COMPONENT, hb, cases, timeout=900)
         n_mismatch = 0
         outcome_kinds = {}
@@ -1008,6 +1095,14 @@ def run(ctx: Ctx):
             if len(ctx.cov["samples"]) < 6 and ctx.rng.chance(1, 300):
                 ctx.sample({"cat": c["cat"], "ops": [o[:200] for o in c["ops"][:8]], "impl": [l[:200] for l in impl[:8]]})
             fails = monitor_case(c, impl)
+            if c["cat"] == "pool":
+                fails, hyp = monitor_pool(c, impl)
+                if hyp:
+                    counts["pool_schedules_out_of_order"] = counts.get("pool_schedules_out_of_order", 0) + 1
+                    if not f28_ok and not fails:
+                        fails = ["O3: responses of one session issued out of request order (pool schedule), and finding F28 is not listed in KNOWN_FINDINGS.txt"]
+                else:
+                    counts["pool_schedules_in_order"] = counts.get("pool_schedules_in_order", 0) + 1
             # the engine cannot tell "suppressed" from "nothing to send": the model says why it is silent, the harness only that it is
             model = ["silent" if l.startswith("silent ") else l for l in model]
             mism = [(i, a, b) for i, (a, b) in enumerate(zip(impl, model)) if a != b]
